@@ -1,11 +1,13 @@
-/-  T1 obligation: the per-chain base58 version bytes and bech32 prefix regenerated from /repo equal the reference table.  -/
+/-  T1 obligation: the per-chain ADDRESS prefixes (base58 version bytes of P2PKH / P2SH addresses and the bech32 prefix)
+    regenerated from /repo equal the reference table.  (The WIF secret-key byte is Tables/ChainSecret.lean: a property
+    that does not speak about WIF does not depend on it.)  -/
 import BtcVerif.Generated.Chain
 
 namespace BtcVerif.Tables.ChainAddr
 open BtcVerif
 
 theorem chain_eq :
-    Generated.chainTable.map (fun p => (p.name, p.pubkeyAddr, p.scriptAddr, p.secretKey, p.bech32Hrp)) =
-      Spec.chainTable.map (fun p => (p.name, p.pubkeyAddr, p.scriptAddr, p.secretKey, p.bech32Hrp)) := by decide
+    Generated.chainTable.map (fun p => (p.name, p.pubkeyAddr, p.scriptAddr, p.bech32Hrp)) =
+      Spec.chainTable.map (fun p => (p.name, p.pubkeyAddr, p.scriptAddr, p.bech32Hrp)) := by decide
 
 end BtcVerif.Tables.ChainAddr
